@@ -276,8 +276,10 @@ class H6(Case):
     is traced out after feeding it the maximally mixed state.)  Rank-3 tensors are checked without
     transforms only: for rank-3 tensors WITH non-unitary transforms SimpleProcessTensor.compute_caps
     (trace_square, transforms ignored) and FileProcessTensor.compute_caps differ and the property does
-    not say which is meant -- not demanded (with the unitary transforms PT-TEMPO produces they agree;
-    that case is covered by C05/H1 and C16/H2)."""
+    not say which is meant -- not demanded HERE (with the unitary transforms PT-TEMPO produces they agree;
+    that case is covered by C05/H1 and C16/H2).  Re-adjudicated later: the cap is fixed by the property
+    (compute_dynamics contracts the transformed tensors); both classes were repaired in /repo 2afc41d and
+    the rank-3-with-transforms sub-case is demanded by C16/H5 for both classes."""
     functions = ("SimpleProcessTensor.compute_caps", "SimpleProcessTensor.get_mpo_tensor", "BaseProcessTensor.__init__")
     env = {}
 
